@@ -929,7 +929,37 @@ where
 }
 
 /// Execute a scenario in this process.
+/// The document a re-entering reader converts (`ReadStep::Reenter`).
+const NESTED_DOC: &[u8] = b"<style>.h{display:none;} b{color:#f00;}</style><h1 id=t>n</h1><p>nested <b>call</b> <i class=h>hidden</i> <a href='u'>l</a></p><table><tr><td>x</td><td>y z</td></tr></table><ul><li>i</li></ul><pre>a\tb</pre>";
+static NESTED_EXPECT: std::sync::OnceLock<String> = std::sync::OnceLock::new();
+
+fn nested_render() -> String {
+    let plain = format!("{:?}", html2text::from_read(NESTED_DOC, 17));
+    let styled = format!(
+        "{:?}",
+        html2text::config::rich().use_doc_css().lines_from_read(NESTED_DOC, 9)
+    );
+    format!("{} / {}", plain, styled)
+}
+
+/// Called by the simulated reader from inside a `read()`: a complete nested
+/// conversion, whose result must be what the same conversion gives on a quiet
+/// system (computed once, before any run).  A panic in the nested call, or a
+/// different result, unwinds through the outer call and is that op's outcome.
+pub fn nested_call() {
+    let got = nested_render();
+    let exp = NESTED_EXPECT.get_or_init(nested_render);
+    if &got != exp {
+        panic!(
+            "a conversion started by the reader while another conversion was reading its input returned a different result: {} instead of {}",
+            got, exp
+        );
+    }
+}
+
 pub fn run_scenario(scen: &Scenario, opts: &ExecOpts) -> RunResult {
+    // (the expected result of nested conversions is fixed outside any call)
+    NESTED_EXPECT.get_or_init(nested_render);
     match scen.config.decorator {
         Deco::Plain | Deco::PlainNoDecorate => run_with::<PlainDecorator>(scen, opts),
         Deco::Rich => run_with::<RichDecorator>(scen, opts),
